@@ -71,6 +71,23 @@ SPEC = {
  "C13d": ("proj", None, ["test", "--offline"], None, False),
  "C14d": ("itest", "octo-squirrel", "c14_vmess_address_roundtrip", None, False),
  "C16d": ("proj", None, ["run", "--offline"], None, True),
+ # round 5
+ "C01e": ("itest", "octo-squirrel", "vmess_body_segmentation", None, False),
+ "C03e": ("itest", "octo-squirrel", "vmess_chunk_nonce_wrap", None, False),
+ "C04e": ("proj", None, ["test", "--offline"], None, False),
+ "C06e": ("itest", "octo-squirrel-server", "udp_users_separated", None, True),
+ "C12e": ("itest", "octo-squirrel", "c12_udp_xchacha_nonce_unique", None, False),
+ "C02e": ("itest", "octo-squirrel-client", "udp_reply_label", None, True),
+ "C05e": ("itest", "octo-squirrel", "c05e_vmess_chunk_excision", None, False),
+ "C07e": ("itest", "octo-squirrel", "c07e_ss2022_tcp_eih_prefix", None, False),
+ "C08e": ("itest", "octo-squirrel-server", "c08_udp_fault_tcp_alive", None, True),
+ "C09e": ("proj", None, ["run", "--offline"], None, True),
+ "C10e": ("itest", "octo-squirrel", "c10_concurrent_replay", None, False),
+ "C11e": ("itest", "octo-squirrel-server", "c11_udp_replay", None, True),
+ "C13e": ("itest", "octo-squirrel-client", "c13_http_target_with_at_in_path", None, True),
+ "C14e": ("itest", "octo-squirrel", "c14_socks5_name_lengths", None, False),
+ "C15e": ("itest", "octo-squirrel-server", "peer_reset_delivery", None, True),
+ "C16e": ("itest", "octo-squirrel-server", "c16_cipher_required", None, True),
 }
 
 
